@@ -421,7 +421,14 @@ def run(ctx):
             ctx.violation(Finding('R-FOURCOUNT', IO, 'ioapi_base.' + fn.name, 'reconcile %s' % name,
                                   'no statement reconciles the %s encoding of the variable count' % name, lineno=fn.lineno), oid=name)
         elif g is None:
-            ctx.undec('R-FOURCOUNT', name, w, 'reconciling statement found but its guard is not recognised')
+            from ..engine import parent_chain as _pc
+            onesided = [p_ for p_ in _pc(st) if isinstance(p_, ast.If) and isinstance(p_.test, ast.Compare) and isinstance(p_.test.ops[0], (ast.Gt, ast.Lt, ast.GtE, ast.LtE))
+                        and ("len(self.dimensions['VAR'])" in norm(p_.test) or 'NVARS' in norm(p_.test) or 'varlist' in norm(p_.test))]
+            if onesided:
+                ctx.violation(Finding('R-FOURCOUNT', IO, 'ioapi_base.' + fn.name, onesided[0], 'the %s encoding is reconciled only when `%s`: a count that changes in the other direction (a pruned VAR-LIST) leaves it stale' % (
+                    name, norm(onesided[0].test))), oid=name)
+            else:
+                ctx.undec('R-FOURCOUNT', name, w, 'reconciling statement found but its guard is not recognised')
         else:
             ctx.ok('R-FOURCOUNT', name, w, '%s under %s' % (norm(st)[:50], norm(g.test)[:60]))
     # TFLAG width: the default of 'overwrite' in updatetflag
@@ -616,6 +623,26 @@ def run(ctx):
             else:
                 ctx.violation(Finding('R-VGLEN', IO, 'ncf2ioapi', st, 'the level edges synthesised for a source without VGLVLS have %s entries but the LAY dimension is created with %s: '
                                       'the written file does not have NLAYS + 1 edges' % (cnt, nlay)))
+    # ---- R-TFLAGRESTORE: mask() always puts the source time flags back; TFLAG is created without a fill value
+    ctx.rule('R-TFLAGRESTORE', 'ioapi_base.mask copies the source TFLAG into the result unconditionally; createVariable never gives TFLAG a fill value')
+    mk = io.func('ioapi_base.mask')
+    top = [st for st in mk.body if isinstance(st, ast.Expr) and isinstance(st.value, ast.Call) and (dotted(st.value.func) or '').endswith('copyVariable') and "'TFLAG'" in norm(st.value)]
+    anyw = [c for c in ast.walk(mk) if isinstance(c, ast.Call) and (dotted(c.func) or '').endswith('copyVariable') and "'TFLAG'" in norm(c)]
+    wmk = '%s ioapi_base.mask' % where
+    if top:
+        ctx.ok('R-TFLAGRESTORE', 'mask', wmk, 'top-level %s' % norm(top[0])[:60])
+    elif anyw:
+        g_ = [p_ for p_ in c11.parent_chain(c11.api.stmt_of(anyw[0])) if isinstance(p_, ast.If)]
+        ctx.violation(Finding('R-TFLAGRESTORE', IO, 'ioapi_base.mask', g_[0] if g_ else anyw[0], 'the source TFLAG is restored only when `%s`: when the generic mask already produced a (masked or filled) TFLAG it stays, and SDATE/STIME no '
+                              'longer equal the first time flag' % (norm(g_[0].test) if g_ else '?')))
+    else:
+        ctx.violation(Finding('R-TFLAGRESTORE', IO, 'ioapi_base.mask', mk.body[-1], 'mask no longer restores TFLAG from the source'))
+    cvf = io.func('ioapi_base.createVariable')
+    nofill = [st for st in iter_stmts(cvf.body) if isinstance(st, ast.If) and "'TFLAG'" in norm(st.test) and any(isinstance(s2, ast.Assign) and norm(s2) == 'fill_value = None' for s2 in st.body)]
+    if nofill:
+        ctx.ok('R-TFLAGRESTORE', 'createVariable', '%s ioapi_base.createVariable' % where, norm(nofill[0].test))
+    else:
+        ctx.violation(Finding('R-TFLAGRESTORE', IO, 'ioapi_base.createVariable', cvf.body[-1], 'TFLAG can be created with a fill value: mask(coords=True) then masks time flags, and the masked/filled flags are decoded as times'), oid='createVariable')
     # ---- R-COUNTATTR
     for attr, dim in (('NLAYS', 'LAY'), ('NCOLS', 'COL'), ('NROWS', 'ROW')):
         want = "self.%s = len(self.dimensions['%s'])" % (attr, dim)
